@@ -11,7 +11,6 @@ package main
 // (constant index needs a length guard) live in c10proj.go.
 
 import (
-	"go/ast"
 	"go/token"
 	"go/types"
 )
@@ -53,266 +52,4 @@ func checkC10(c *Ctx) {
 type selPart struct {
 	obj   types.Object
 	field string
-}
-
-// rootObj returns the variable at the root of an lvalue like x[i].f[j].
-func rootObj(info *types.Info, e ast.Expr) types.Object {
-	for {
-		e = unparen(e)
-		switch x := e.(type) {
-		case *ast.IndexExpr:
-			e = x.X
-		case *ast.SelectorExpr:
-			if _, isPkg := info.Uses[identOf(x.X)].(*types.PkgName); isPkg {
-				return nil
-			}
-			e = x.X
-		case *ast.StarExpr:
-			e = x.X
-		case *ast.SliceExpr:
-			e = x.X
-		case *ast.Ident:
-			return objOf(info, x)
-		default:
-			return nil
-		}
-	}
-}
-
-func identOf(e ast.Expr) *ast.Ident {
-	id, _ := unparen(e).(*ast.Ident)
-	return id
-}
-
-// copyLoops checks an element-wise copy from the nested collection src into a
-// fresh structure.  With closing=true each member is allocated one slot longer
-// and that slot must receive the member's first element (ring closing);
-// it returns whether the closing store was seen.
-func copyLoops(info *types.Info, sc *fnScope, recv types.Object, fd *ast.FuncDecl, closing bool, prob func(token.Pos, string)) (closed bool) {
-	type frame struct {
-		l    *Loop
-		over ast.Expr // collection iterated
-	}
-	stores := 0
-	var walk func(n ast.Node, stack []frame)
-	walk = func(n ast.Node, stack []frame) {
-		switch n := n.(type) {
-		case nil:
-			return
-		case *ast.FuncLit:
-			return
-		case *ast.RangeStmt, *ast.ForStmt:
-			var body *ast.BlockStmt
-			st := n.(ast.Stmt)
-			l := sc.loopOf(st)
-			if rs, ok := n.(*ast.RangeStmt); ok {
-				body = rs.Body
-			} else {
-				body = n.(*ast.ForStmt).Body
-			}
-			if l == nil {
-				prob(n.Pos(), "loop not recognised as a counting loop")
-				return
-			}
-			// the loop must cover the receiver (level 0) or the element of the enclosing loop
-			var want ast.Expr
-			if len(stack) == 0 {
-				want = &ast.Ident{Name: recv.Name()}
-				if !(l.Lo.ok && l.Lo.Of == nil && l.Lo.K == 0 && l.Hi.ok && l.Hi.K == 0 && l.Hi.Of != nil && objOf(info, l.Hi.Of) == recv) {
-					prob(n.Pos(), "outer loop "+l.String()+" does not cover every member of the receiver")
-				}
-			} else {
-				outer := stack[len(stack)-1].l
-				okCover := false
-				if l.Lo.ok && l.Lo.Of == nil && l.Lo.K == 0 && l.Hi.ok && l.Hi.K == 0 && l.Hi.Of != nil {
-					if outer.Val != nil && objOf(info, l.Hi.Of) == outer.Val {
-						okCover = true
-					}
-					if ix, ok := unparen(l.Hi.Of).(*ast.IndexExpr); ok && outer.Idx != nil && objOf(info, ix.Index) == outer.Idx && rootObj(info, ix.X) == recv {
-						okCover = true
-					}
-				}
-				if !okCover {
-					prob(n.Pos(), "inner loop "+l.String()+" does not cover every vertex of the current member")
-				}
-			}
-			_ = want
-			brk, cont, _ := earlyExits(body)
-			if len(brk)+len(cont) > 0 {
-				prob(n.Pos(), "copy loop has break/continue: some members may be skipped")
-			}
-			for _, s := range body.List {
-				walk(s, append(stack, frame{l: l}))
-			}
-			return
-		case *ast.AssignStmt:
-			for i, lh := range n.Lhs {
-				ix, ok := unparen(lh).(*ast.IndexExpr)
-				if !ok {
-					continue
-				}
-				root := rootObj(info, ix)
-				if root == nil || root == recv {
-					continue
-				}
-				if _, isParam := root.(*types.Var); !isParam {
-					continue
-				}
-				// collect index chain
-				var idxs []ast.Expr
-				e := ast.Expr(ix)
-				for {
-					x, ok := unparen(e).(*ast.IndexExpr)
-					if !ok {
-						break
-					}
-					idxs = append([]ast.Expr{x.Index}, idxs...)
-					e = x.X
-				}
-				stores++
-				if closing && len(idxs) == len(stack)+1 && len(stack) >= 1 && len(n.Rhs) == len(n.Lhs) {
-					// out[i][len(elem)] = out[i][0]
-					fr := stack[len(stack)-1]
-					last := sc.aff(idxs[len(idxs)-1])
-					okIdx := last.ok && last.K == 0 && last.Of != nil && ((fr.l.Val != nil && objOf(info, last.Of) == fr.l.Val) || isRecvElem(info, last.Of, recv, fr.l.Idx))
-					okVal := false
-					if vx, ok := unparen(n.Rhs[i]).(*ast.IndexExpr); ok {
-						if k, ok := constInt(info, vx.Index); ok && k == 0 && sameExpr(info, vx.X, ix.X) {
-							okVal = true
-						}
-					}
-					okOuter := true
-					for k, ie := range idxs[:len(idxs)-1] {
-						if off, ok := sc.idxOffset(ie, stack[k].l.Idx); !ok || off != 0 {
-							okOuter = false
-						}
-					}
-					if okIdx && okVal && okOuter {
-						closed = true
-						continue
-					}
-					prob(n.Pos(), "closing store `"+src(n)+"` does not put the ring's first vertex into its last slot")
-					continue
-				}
-				if len(idxs) > len(stack) {
-					prob(n.Pos(), "store `"+src(lh)+"` is not inside loops over the corresponding receiver levels")
-					continue
-				}
-				for k, ie := range idxs {
-					fr := stack[k]
-					if off, ok := sc.idxOffset(ie, fr.l.Idx); !ok || off != 0 {
-						prob(n.Pos(), "store `"+src(lh)+"`: index `"+src(ie)+"` is not the loop index of level "+string(rune('0'+k))+" (vertex order/position not preserved)")
-					}
-				}
-				// value provenance: must derive from the innermost element
-				if len(n.Rhs) == len(n.Lhs) {
-					val := n.Rhs[i]
-					if call, ok := unparen(val).(*ast.CallExpr); ok && builtinName(info, call) == "make" {
-						// inner allocation: make([]T, len(elem))
-						if len(idxs) <= len(stack) && len(call.Args) >= 2 {
-							fr := stack[len(idxs)-1]
-							a := sc.aff(call.Args[1])
-							wantK := int64(0)
-							if closing {
-								wantK = 1
-							}
-							okLen := a.ok && a.K == wantK && a.Of != nil && ((fr.l.Val != nil && objOf(info, a.Of) == fr.l.Val) || isRecvElem(info, a.Of, recv, fr.l.Idx))
-							if !okLen && closing {
-								prob(call.Pos(), "ring allocated with length `"+src(call.Args[1])+"`, want the contour's length + 1 (room for the repeated first vertex)")
-							} else if !okLen {
-								prob(call.Pos(), "member allocated with length `"+src(call.Args[1])+"`, not the member's own length")
-							}
-						}
-						continue
-					}
-					fr := stack[len(idxs)-1]
-					if !derivesFrom(info, sc, val, recv, fr.l, 0) {
-						prob(n.Pos(), "value stored by `"+src(n)+"` does not derive from the element at the same index")
-					}
-				}
-			}
-			return
-		case *ast.BlockStmt:
-			for _, s := range n.List {
-				walk(s, stack)
-			}
-			return
-		case *ast.IfStmt:
-			walk(n.Init, stack)
-			walk(n.Body, stack)
-			walk(n.Else, stack)
-			return
-		}
-	}
-	walk(fd.Body, nil)
-	if stores == 0 {
-		prob(fd.Pos(), "no store into the result structure found")
-	}
-	return closed
-}
-
-func isRecvElem(info *types.Info, e ast.Expr, recv types.Object, idx types.Object) bool {
-	ix, ok := unparen(e).(*ast.IndexExpr)
-	return ok && idx != nil && objOf(info, ix.Index) == idx && rootObj(info, ix.X) == recv
-}
-
-// derivesFrom: does val come from the loop's current element (range value or recv[idx])?
-func derivesFrom(info *types.Info, sc *fnScope, val ast.Expr, recv types.Object, l *Loop, depth int) bool {
-	if depth > 4 {
-		return false
-	}
-	found := false
-	ast.Inspect(val, func(n ast.Node) bool {
-		if found {
-			return false
-		}
-		switch n := n.(type) {
-		case *ast.CallExpr:
-			if b := builtinName(info, n); b == "len" || b == "cap" {
-				return false // a length says nothing about the element's value
-			}
-		case *ast.Ident:
-			o := objOf(info, n)
-			if o == nil {
-				return true
-			}
-			if l.Val != nil && o == l.Val {
-				found = true
-				return false
-			}
-			if o != recv {
-				for _, d := range sc.defs[o] {
-					if d != nil && derivesFrom(info, sc, d, recv, l, depth+1) {
-						found = true
-					}
-				}
-				// fields assigned individually: w.X, w.Y, err = t(v.X, v.Y)
-				if !found {
-					ast.Inspect(sc.body, func(m ast.Node) bool {
-						as, ok := m.(*ast.AssignStmt)
-						if !ok {
-							return true
-						}
-						for _, lh := range as.Lhs {
-							if sel, ok := unparen(lh).(*ast.SelectorExpr); ok && objOf(info, sel.X) == o {
-								for _, r := range as.Rhs {
-									if derivesFrom(info, sc, r, recv, l, depth+1) {
-										found = true
-									}
-								}
-							}
-						}
-						return !found
-					})
-				}
-			}
-		case *ast.IndexExpr:
-			if isRecvElem(info, n, recv, l.Idx) {
-				found = true
-				return false
-			}
-		}
-		return true
-	})
-	return found
 }
